@@ -303,10 +303,17 @@ func (m *Manager) GetStats() (*QoSStats, error) {
 	var key uint32 = 0
 	var stats QoSStats
 
-	// Note: This is a per-CPU map, need to aggregate
-	// For simplicity, just get first CPU's stats
-	if err := m.qosStatsMap.Lookup(&key, &stats); err != nil {
+	// qos_stats_map is a per-CPU array: the kernel returns one value per
+	// possible CPU, which must be read into a slice and aggregated
+	var perCPU []QoSStats
+	if err := m.qosStatsMap.Lookup(&key, &perCPU); err != nil {
 		return nil, err
+	}
+	for _, s := range perCPU {
+		stats.PacketsPassed += s.PacketsPassed
+		stats.PacketsDropped += s.PacketsDropped
+		stats.BytesPassed += s.BytesPassed
+		stats.BytesDropped += s.BytesDropped
 	}
 
 	return &stats, nil
